@@ -120,7 +120,14 @@ def case_strategy(tier):
                     k = draw(st.integers(0, len(l["cues"]) - 1))
                     l["cues"][k] = dict(l["cues"][k], end=min(gen.DAY - 1, l["cues"][k]["end"] + draw(
                         st.sampled_from([gen.SEC, gen.MIN, gen.HOUR, 2 * gen.HOUR]))))
-        case = {"writer": w, "set": s, "opts": opts, "lang": pick}
+        if len(s["langs"]) == 2 and s["langs"][0]["cues"] and draw(st.integers(0, 5)) == 0:
+            # the second language is a copy of the first (then made of the same Caption objects)
+            import copy
+            s["langs"][1]["cues"] = copy.deepcopy(s["langs"][0]["cues"])
+            alias = True
+        else:
+            alias = False
+        case = {"writer": w, "set": s, "opts": opts, "lang": pick, "alias_langs": alias}
         if w == "sami" and len(s["langs"]) == 2 and s["langs"][0]["cues"] and draw(st.integers(0, 3)) == 0:
             # overlapping captions in the first language (SAMI has no spelling for them: that
             # language is not judged); the second, sorted language must still come out in order
@@ -128,6 +135,17 @@ def case_strategy(tier):
             k = draw(st.integers(0, len(l0["cues"]) - 1))
             l0["cues"][k] = dict(l0["cues"][k], end=min(gen.DAY - 1, l0["cues"][k]["end"] + draw(
                 st.sampled_from([gen.SEC, 5 * gen.SEC, gen.MIN, gen.HOUR]))))
+            if len(l0["cues"]) >= 2 and draw(st.booleans()):
+                k2 = draw(st.integers(0, len(l0["cues"]) - 2))
+                l0["cues"][k2 + 1] = dict(l0["cues"][k2 + 1], start=l0["cues"][k2]["start"],
+                                          end=max(l0["cues"][k2 + 1]["end"], l0["cues"][k2]["start"]))
+                # (and a cue of the second language starting in that very millisecond)
+                l1 = s["langs"][1]
+                if l1["cues"] and draw(st.booleans()):
+                    d0 = l1["cues"][0]["end"] - l1["cues"][0]["start"]
+                    t0 = l0["cues"][k2]["start"]
+                    if all(c["start"] > t0 + d0 for c in l1["cues"][1:]) or len(l1["cues"]) == 1:
+                        l1["cues"][0] = dict(l1["cues"][0], start=t0, end=t0 + d0)
             case["unjudged_langs"] = [l0["code"]]
         if pick and w in ("dfxp", "dfxp-single") and draw(st.integers(0, 3)) == 0:
             # the option value spells the language code in another case
@@ -142,7 +160,7 @@ def case_strategy(tier):
             case["past_shift"] = draw(st.sampled_from([1000, 2500000, 3600000000, -1000]))
         if draw(st.integers(0, 3)) == 0:
             # float instants as produced by SCCReader from generated timecodes
-            n = sum(len(l["cues"]) for l in s["langs"])
+            n = max(1, sum(len(l["cues"]) for l in s["langs"]))
             tcs = []
             t = draw(st.integers(0, 3600 * 30))
             for _ in range(n):
@@ -216,6 +234,12 @@ def check_case(case, rec):
             return
         rec.label("float-times")
     cs = model.to_pycaption(m)
+    if case.get("alias_langs") and len(m["langs"]) == 2 and \
+            [(c["start"], c["end"]) for c in m["langs"][0]["cues"]] == [(c["start"], c["end"]) for c in m["langs"][1]["cues"]]:
+        # public list operations give caption sets in which one Caption object occurs twice
+        from pycaption import CaptionList
+        cs.set_captions(m["langs"][1]["code"], CaptionList(list(cs.get_captions(m["langs"][0]["code"]))))
+        rec.label("caption-objects-shared-between-languages")
     if case.get("caption_past"):
         sh = case["past_shift"]
         for lang_ in cs.get_languages():
